@@ -140,6 +140,10 @@ Arrive == /\ IsEvent("arrive") /\ "bad" \notin DOMAIN Ev
                  np == IF len > 0 THEN parked[e] \cup {<<off, off + len>>} ELSE parked[e]
                  nc == Adv(contig[e], np)
              IN
+             \* C05 "without waiting for the retransmission timeout": on the synchronous wire a frame is handed over only
+             \* after the previous one was processed, so the fast retransmit mandated by the third duplicate ACK has been
+             \* emitted (synchronously, by the goroutine that processed that ACK) before anything else can arrive
+             /\ (On("C05") /\ Fld(cfg, "sync", FALSE)) => c5[e].needRetx < 0
              /\ contig' = [contig EXCEPT ![e] = nc]
              /\ pcontig' = [pcontig EXCEPT ![e] = contig[e]]      \* what had arrived in order before this (possibly still unprocessed) arrival
              /\ parked' = [parked EXCEPT ![e] = {iv \in np : iv[2] > nc}]
